@@ -322,7 +322,7 @@ func c10RunCPUSetPart(env *mc.Env, tree *c10Tree, layouts []*c10Layout, npods in
 		"(absent | QoS{LSE,LSR,LS,BE} x cpuset annotation{core 0, NUMA node 0, all CPUs, last CPU} | malformed annotation; 2nd/3rd pod partly reduced to LSE/LSR) x reservedCPUs{none,{0},{0,1},all} x "+
 		"system-QoS cpuset{none,{0},{0,1},upper half,all; {0,1} non-exclusive; malformed(thorough)} x current BE cpuset{all,{0,1},empty,{0}} x budget milli{-1500,0,1,2000,2001,3000,N/2+0.001,N,N+1 CPUs} x kubelet policy{none,static}; "+
 		"non-trivial = a cpuset was written; distinct = distinct (case, written sets) among those", len(layouts), npods)
-	res.Bounds = map[string]any{"layouts": len(layouts), "max_cpus": layouts[len(layouts)-1].N, "pods": npods, "cases": total}
+	res.Bounds = map[string]any{"layouts": len(layouts), "max_cpus": c10MaxN(layouts), "pods": npods, "cases": total}
 	res.Assumptions = []string{
 		"the transient union (old + new cpuset) that applyCPUSetWithNonePolicy writes top-down before the real set is outside the property; the LAST value written per cgroup is judged",
 		"the derived set is the final cpuset.cpus of the BE container cgroup (with kubelet static policy the BE root/pod level holds the recovery set, which is judged for protection only)",
